@@ -1,0 +1,42 @@
+//go:build verif
+
+package cmd
+
+import (
+	"fmt"
+	"os"
+	"strconv"
+	"strings"
+	"sync/atomic"
+	"time"
+)
+
+var verifRegeneration int64
+
+// verifDelayPoint lets a test harness stretch chosen regenerations of `generate --watch`:
+// VERIF_WATCH_DELAYS="1:300,3:50" sleeps 300 ms in the 1st and 50 ms in the 3rd call
+// (calls are counted per process). Start and end of every call are appended to VERIF_WATCH_LOG.
+func verifDelayPoint() {
+	n := atomic.AddInt64(&verifRegeneration, 1)
+	logf := func(what string) {
+		if p := os.Getenv("VERIF_WATCH_LOG"); p != "" {
+			if f, err := os.OpenFile(p, os.O_APPEND|os.O_CREATE|os.O_WRONLY, 0644); err == nil {
+				fmt.Fprintf(f, "%s %d %d\n", what, n, time.Now().UnixNano())
+				f.Close()
+			}
+		}
+	}
+	logf("start")
+	for _, item := range strings.Split(os.Getenv("VERIF_WATCH_DELAYS"), ",") {
+		kv := strings.SplitN(item, ":", 2)
+		if len(kv) != 2 {
+			continue
+		}
+		k, err1 := strconv.ParseInt(kv[0], 10, 64)
+		ms, err2 := strconv.Atoi(kv[1])
+		if err1 == nil && err2 == nil && k == n {
+			time.Sleep(time.Duration(ms) * time.Millisecond)
+		}
+	}
+	logf("end")
+}
